@@ -451,6 +451,29 @@ def r4_every_error(ctx):
     yield Ob('error_html:error_html.gen_seg renders every element position', ok, ctx.floc(f), '' if ok else 'element range changed')
 
 
+def r6_error_iterator_steps(ctx):
+    """the report collects the error nodes of a segment by stepping the error iterator from node to node; a step that
+    passes over a sibling loses that node's messages.  err_node.get_next_sibling decided by constant propagation on a
+    parent with four children: from each child the next one, from the last none."""
+    from ..absint import run_function, NotClosedTest
+    fn = ctx.func('error_handler', 'err_node.get_next_sibling')
+    kids = tuple(A.Model('child%d' % i) for i in range(4))
+    parent = A.Model('parent', children=kids)
+    bad = []
+    for i, k in enumerate(kids):
+        k.parent = parent
+    for i, k in enumerate(kids):
+        try:
+            got = run_function(ctx.cfg(fn), fn, [k], {})
+        except (NotClosedTest, A.NotClosed) as e:
+            raise AnalysisError('err_node.get_next_sibling cannot be decided: %s' % e)
+        want = kids[i + 1] if i + 1 < len(kids) else None
+        if got is not want:
+            bad.append('from child %d of 4 the next sibling is %s, not %s' % (i, got, want))
+    yield Ob('error_handler:err_node.get_next_sibling steps to the following sibling', not bad, ctx.floc(fn),
+             '' if not bad else bad[0] + ': the error nodes in between never reach the report')
+
+
 def r5_escaped_once(ctx):
     """stripping the markup recovers the source: text is escaped exactly once.  A self attribute that already holds
     escaped text (assigned from escape_html_chars) must not be passed through escape_html_chars again."""
@@ -482,5 +505,6 @@ RULES = [
     Rule('C19.R2', 'escape chain: & first, < and > covered', r2_escape_chain, floor=3),
     Rule('C19.R3', 'header before, one gen_seg per iteration, footer after (CFG)', r3_every_segment, floor=4),
     Rule('C19.R4', 'error code filters partition the codes; all nodes, element errors and positions rendered', r4_every_error, floor=4),
+    Rule('C19.R6', 'the error iterator steps from a node to its immediate next sibling (no error node is passed over)', r6_error_iterator_steps, floor=1),
     Rule('C19.R5', 'no text is escaped twice', r5_escaped_once, floor=5),
 ]
